@@ -253,7 +253,7 @@ func EncodeHeaderSW(b Box, sw bits.SliceWriter) error {
 	}
 	sw.WriteUint32(uint32(boxSize))
 	sw.WriteString(boxType, false)
-	return nil
+	return sw.AccError()
 }
 
 // EncodeHeaderWithSize - encode a box header to a writer and allow for largeSize
